@@ -76,17 +76,9 @@ def _run(pid, tier, seed, replay, cfg, props, sc, work, t0):
     broken = []          # names of obligations that no longer check
     notes = []
     # 2. translators
-    gen_info = {}
-    for tr in getattr(cfg, 'TRANSLATORS', []):
-        cmd = [vlib.PY, os.path.join(vlib.ROOT, 'translate', tr),
-               '--repo', sc.repo, '--out', os.path.join(vlib.LEAN, 'PysphVerif', 'Gen')]
-        p = subprocess.run(cmd, env=sc.env, cwd=work, stdout=subprocess.PIPE,
-                           stderr=subprocess.STDOUT, text=True)
-        gen_info[tr] = p.stdout[-1500:]
-        if p.returncode != 0:
-            broken.append('translator:%s' % tr)
-            notes.append('translator %s failed on the current source: %s'
-                         % (tr, p.stdout[-800:]))
+    gen_info, tb, tn = vlib.run_translators(cfg, sc, work)
+    broken += tb
+    notes += tn
     # 3. proof obligations
     ok, out, failing = vlib.lake_build(list(props) + [vlib.driver_target(pid)])
     thm_index = {}
